@@ -12,7 +12,7 @@ CHECKS = {
         "text": "Every (type, parameters, box) of a small scope is enumerated exhaustively and Hypothesis generates larger boxes; "
         "each filtering call is compared with the brute-force solution set of its input box (containment, no solution lost, "
         "INCONSISTENCY only on an empty solution set). Exploration is the right level: the quantifier is over all boxes, "
-        "the oracle is exact, and the small scope is complete for the off-by-one class of defects. Fifteen scopes of 32767..65535 variables with analytically known solutions (alldifferent / gcc on pairwise disjoint domains, no_sub_cycle with one ground vertex) cover the 16-bit scratch arrays.",
+        "the oracle is exact, and the small scope is complete for the off-by-one class of defects. Fifteen scopes of 32767..65535 variables with analytically known solutions (alldifferent / gcc on pairwise disjoint domains, no_sub_cycle with one ground vertex) cover the 16-bit scratch arrays. One generated box in five is the same shape moved far from zero (by about 2**7, 2**8, 2**15, 2**16, 10**6, 10**7, and 10**9 for the non-linear types; parameters moved with it), which the brute-force oracle handles unchanged (C05, C06, C07 and C14 share this generator).",
         "note": _BOX_NOTE,
         "technique": "property-based testing: exhaustive small-scope enumeration + Hypothesis boxes vs brute-force solution set",
     },
@@ -53,13 +53,14 @@ CHECKS.update({
     },
     "C02": {
         "text": "Generated problems small enough for exact brute force x a list of configurations per problem (thorough: all 40) x posting orders: the multiset yielded by the iterator must equal the brute-force solution multiset "
-        "(extra / missing / duplicated reported separately), the iterator must stop, and a further next() must not yield anything.",
+        "(extra / missing / duplicated reported separately), the iterator must stop, and a further next() must not yield anything. For a drawn part of the configurations the enumeration is the second complete search on its solver object (after find_all / a full iteration / solve_all / "
+        "a minimisation or maximisation), with the same oracle. One problem profile moves all domains far from zero (around 2**15, 2**16, 10**6, 5*10**7).",
         "note": _SOLVER_NOTE,
         "technique": "property-based testing: differential against brute-force enumeration of the cartesian product, across configurations and posting orders",
     },
     "C03": {
         "text": "Generated problem x objective variable (drawn from: any / in some scope / in no scope; sharing a domain with an offset or not) x direction x configuration, sequentially and distributed over split() with a drawn "
-        "delivery schedule: result None iff brute force finds no solution, otherwise a solution whose objective value equals the brute-force optimum; termination through deterministic progress budgets.",
+        "delivery schedule: result None iff brute force finds no solution, otherwise a solution whose objective value equals the brute-force optimum; termination through deterministic progress budgets. A quarter of the sequential cases first run another complete search (the same optimisation, another one, or an enumeration) on the same solver object.",
         "note": _SOLVER_NOTE,
         "technique": "property-based testing: differential against brute-force optimum; progress-budget termination oracle",
     },
@@ -122,7 +123,8 @@ CHECKS.update({
 
 CHECKS.update({
     "C15": {
-        "text": "Histories inside one process (solve, create solvers, partial next(), abandon iterators, register clones of shipped propagators / heuristics / consistency algorithms and solve through the clone indices, reuse one Problem "
+        "text": "Histories inside one process (solve, create solvers, partial next(), abandon iterators, register clones of shipped propagators / heuristics / consistency algorithms and solve through the clone indices, register user-written heuristics produced by a factory (distinct functions sharing one __name__, each delegating to a shipped "
+        "heuristic, so the run must equal the shipped one's), reuse one Problem "
         "object for a second solver while the first is alive): every observation (solution sequence + all 13 statistics) must equal the first observation of the same problem/configuration; the complete observation lists of a batch "
         "are then compared with a fresh process in the other execution mode (compiled vs NUMBA_DISABLE_JIT) and with a second fresh process in the same mode.",
         "note": "Trusted: Hypothesis, JSON equality of observation lists. Cost-table heuristics are not part of the histories. Cross-process failures are reported unshrunk (the comparison happens after the batch).",
@@ -130,7 +132,8 @@ CHECKS.update({
     },
     "C16": {
         "text": "Single filtering calls on boxes that stress scratch arrays and index clamping (alldifferent/gcc up to 12-16 variables with equal/nested/point bounds, element_* with index domains straddling the list ends, no_sub_cycle/scc, "
-        "relation with many tuples) and real searches with cost tables exactly as wide as the domains: under interpretation no IndexError/OverflowError may come from a nucs frame and no variable heuristic may return a negative index; the "
+        "relation with many tuples), real searches with cost tables exactly as wide as the domains, and every shipped model built over a range of instance sizes (Golomb 2-20 marks, queens, magic sequence, Schur 1-20, quasigroups 3-9, BIBD, "
+        "tournaments, circuits, TSP, sudoku, alpha, donald) and asked for its first solution where that takes seconds: under interpretation no IndexError/OverflowError may come from a nucs frame and no variable heuristic may return a negative index; the "
         "same generators run against an engine compiled with NUMBA_BOUNDSCHECK=1, whose bounds violations are captured per case (exceptions or 'Exception ignored' output on stderr).",
         "note": "Trusted: NumPy's and Numba's bounds checking. A negative index wraps silently in both and is visible only through its consequences (stated limit in DESIGN.md section 7).",
         "technique": "property-based testing: Hypothesis stress generators under interpretation and under a bounds-checked compilation",
@@ -146,7 +149,8 @@ CHECKS.update({
     "C19": {
         "text": "Stack sweep: stack_max_height in {1,2,3,4,8,16,127,128,129,255,256,257,300,512} x problems whose search depth is height-3..height+4 x heuristics (mid pushes two levels) x BC/shaving, differential against the same run on an "
         "ample stack: either an exception / refusal, or exactly the same first m solutions and statistics. Size sweep around the 8/16-bit limits (total scope length, total parameter length, number of shared domains around 65536, algorithm "
-        "index around 256, heights around 256 and 65536) on problems with an analytically known solution set. Runs in isolated compiled workers: a worker killed by a signal is a verdict (confirmed in a fresh process).",
+        "index around 256, heights around 256 and 65536) on problems with an analytically known solution set. The stack sweep is repeated inside workers of the multiprocessing solver (real processes over split(), enumerate / minimise / "
+        "maximise): the call must raise or return exactly what one solver with an ample stack returns. Runs in isolated compiled workers: a worker killed by a signal is a verdict (confirmed in a fresh process).",
         "note": "Trusted: the run with an ample stack as reference (its correctness is C02's matter). Sizes beyond 131080 and domain values beyond 32 bits are not generated.",
         "technique": "property-based testing: boundary sweeps (Hypothesis sampled_from around limits) with a differential ample-capacity oracle in crash-isolated workers",
     },
